@@ -2,6 +2,11 @@
 From Boltons Require Import Lib.Prelude Lib.C11_Iface Spec.C11_Spec Model.C11_Model
      Proofs.C11_Lists Proofs.C11_Dead Proofs.C11_Inv Proofs.C11_Sets Proofs.C11_Refine Proofs.C11_Slice.
 
+Definition refines_step1 (c : cfg) (s : iset) (o : op) : Prop :=
+  Inv (fst (m_step1 c s o)) /\
+  m_live (fst (m_step1 c s o)) = fst (spec_step1 (m_live s) o) /\
+  snd (m_step1 c s o) = snd (spec_step1 (m_live s) o).
+
 Definition refines_step (c : cfg) (s : iset) (o : op) : Prop :=
   Inv (fst (m_step c s o)) /\
   m_live (fst (m_step c s o)) = fst (spec_step (m_live s) o) /\
@@ -10,14 +15,10 @@ Definition refines_step (c : cfg) (s : iset) (o : op) : Prop :=
 Lemma forallb_ext' {A} (f g : A -> bool) l : (forall x, f x = g x) -> forallb f l = forallb g l.
 Proof. intros H. induction l as [|x l IH]; simpl; [reflexivity|]. rewrite H, IH. reflexivity. Qed.
 
-Lemma read_only c s o r : Inv s -> m_step c s o = (s, r) -> spec_step (m_live s) o = (m_live s, r) ->
-  refines_step c s o.
-Proof. intros H E1 E2. unfold refines_step. rewrite E1, E2. simpl. auto. Qed.
-
-Theorem step_refines c s o : Inv s -> valid_op (m_live s) o = true -> refines_step c s o.
+Theorem step_refines1 c s o : Inv s -> valid_op (m_live s) o = true -> refines_step1 c s o.
 Proof.
   intros H V. pose proof H as [H0 HL]. pose proof (Inv0_nodup s H0) as ND.
-  destruct o; try (unfold refines_step; cbn [m_step spec_step fst snd]).
+  destruct o; try (unfold refines_step1; cbn [m_step1 spec_step1 fst snd]).
   - (* Add *) destruct (add_inv s x H) as [A B]. auto.
   - (* Remove *) destruct (remove_inv c s x H) as (A & B & C). rewrite C.
     destruct (l_mem x (m_live s)) eqn:M; cbn [fst snd]; rewrite ?B; auto.
@@ -53,6 +54,35 @@ Proof.
   - (* Iter *) auto.
   - (* Reversed *) auto.
   - (* Snapshot *) rewrite (snapshot_ok s H0). auto.
+  - (* SelfOp: not an operation with an explicit operand *) auto.
+Qed.
+
+Lemma s_symdiff_self l : s_symdiff l (Opd true l) = [].
+Proof.
+  unfold s_symdiff, opd_mem. cbn [o_elems].
+  assert (E : filter (fun x => negb (l_mem x l)) l = []).
+  { apply filter_none. intros x Hx. apply negb_false_iff. apply l_mem_In. exact Hx. }
+  rewrite E. reflexivity.
+Qed.
+
+Theorem step_refines c s o : Inv s -> valid_op (m_live s) o = true -> refines_step c s o.
+Proof.
+  intros H V.
+  assert (G : forall o', valid_op (m_live s) o' = true ->
+              m_step c s o' = m_step1 c s o' -> spec_step (m_live s) o' = spec_step1 (m_live s) o' ->
+              refines_step c s o').
+  { intros o' V' E1 E2. unfold refines_step. rewrite E1, E2. apply step_refines1; assumption. }
+  destruct o; try (apply G; [exact V|reflexivity|reflexivity]).
+  (* the operand is the set itself *)
+  assert (X : forall k', k' <> SSymDiffUpdate -> m_step c s (SelfOp k') = m_step1 c s (expand_self k' (as_operand s))).
+  { intros k' N. destruct k'; try reflexivity. contradiction. }
+  destruct k;
+    try (unfold refines_step; rewrite X by discriminate;
+         change (spec_step (m_live s) (SelfOp ?k')) with (spec_step1 (m_live s) (expand_self k' (Opd true (m_live s))));
+         apply (step_refines1 c s _ H); reflexivity).
+  (* symmetric_difference_update(self): clear *)
+  unfold refines_step. cbn [m_step spec_step expand_self spec_step1 fst snd].
+  split; [apply Inv_empty|]. split; [|reflexivity]. rewrite s_symdiff_self. reflexivity.
 Qed.
 
 (* whole histories: every recorded observation coincides *)
